@@ -24,7 +24,12 @@ from ..srcmodel import repo_root
 
 def load_corpus():
     from . import mutants
-    return list(mutants.CORPUS) + seeded_corpus()
+    out = list(mutants.CORPUS) + seeded_corpus()
+    for m in out:
+        # stacked mutant: an edit on top of a stored refactoring
+        if m.get('on') and not m.get('patch'):
+            m['patch'] = os.path.join(VERIF, 'seeded', m['on'], 'patch.diff')
+    return out
 
 
 def seeded_corpus():
@@ -59,7 +64,8 @@ def _apply(root, m):
         if p.returncode != 0:
             return 'stale: patch does not apply: ' + (p.stdout +
                                                       p.stderr)[:200]
-        return None
+        if not (m.get('edits') or m.get('file')):
+            return None
     edits = m.get('edits') or [(m['file'], m['old'], m['new'])]
     for (rel, old, new) in edits:
         path = os.path.join(root, rel)
